@@ -68,10 +68,19 @@ def endsWith (suf s : List Char) : Bool := startsWith suf.reverse s.reverse
 
 /-- ```
 privacy = PrivacyClass.PUBLIC
-if ob.name.startswith('_') and not (ob.name.startswith('__') and ob.name.endswith('__')):
+if ob.name.startswith('_') and \
+       not (len(ob.name) >= 4 and ob.name.startswith('__') and ob.name.endswith('__')):
     privacy = PrivacyClass.PRIVATE
-``` -/
+```
+(since 2e9a6af a dunder needs four characters: `__` and `___` are private) -/
 def defaultLevel (name : List Char) : Level :=
+  if startsWith ['_'] name &&
+      !(Decidable.decide (4 ≤ name.length) && startsWith ['_', '_'] name && endsWith ['_', '_'] name) then .priv
+  else .pub
+
+/-- historical: the default before 2e9a6af — the dunder test was
+`startswith('__') and endswith('__')`, which the two underscores of `__` satisfy at both ends -/
+def defaultLevelBefore_2e9a6af (name : List Char) : Level :=
   if startsWith ['_'] name && !(startsWith ['_', '_'] name && endsWith ['_', '_'] name) then .priv
   else .pub
 
@@ -152,7 +161,7 @@ def privacyClassBefore_c8d85b0 (rules : List Rule) (ob : Obj) : Res :=
     | none =>
       match findPattern rules.reverse ob.fullName with
       | .found l => .ok l
-      | .notFound => .ok (defaultLevel ob.name)
+      | .notFound => .ok (defaultLevelBefore_2e9a6af ob.name)
       | .raised e => .err e
 
 inductive BoolRes where
